@@ -7,15 +7,40 @@ from vlib import coq
 
 PROP = "C17"
 LEVEL = "proof"
-COQ_TARGETS = ["C17/Model.vo", "C17/Alg.vo", "C17/Sched.vo", "C17/Float.vo"]
+COQ_TARGETS = ["C17/Model.vo", "C17/Alg.vo", "C17/Sched.vo", "C17/PhaseEnd.vo", "C17/Main.vo", "C17/Float.vo"]
 COQ_DIRS = ["C17"]
-PROPERTIES_FILE = None
+PROPERTIES_FILE = "Properties/C17.v"
 ALLOWED_AXIOMS = set()
 RULE = ("case = (routine, input class, size, matrix); non-trivial = degenerate spectrum, exact zeros, permutation-like, "
         "already canonical, boundary-of-tolerance, or invalid input")
-TRUSTED_BASE = []
-ASSUMPTIONS = []
-MANIFEST_TEXT = ""
+TRUSTED_BASE = [
+    "Coq 8.16.1 kernel; vm_compute with primitive floats (PrimFloat) for executing the model in correspondence files only",
+    "hand-written model coq/C17/Model.v of T/Ti/mach_zehnder blocks, the nulling order of rectangular/rectangular_MZ/triangular and the "
+    "phase-pushing of rectangular_phase_end/rectangular_symmetric; tied to the code by (i) exact comparison of the nulling order with "
+    "the calls the implementation makes to nullTi/nullT/nullMZi/nullMZ (observed by wrapping those module attributes in-process) and "
+    "(ii) tolerance-1e-6 comparison of every element's (cos, sin, exp(i phi)) and of the diagonals computed by the float model "
+    "coq/C17/Float.v (sqrt-based formulas instead of numpy's arctan/angle/cos/sin/exp) on generated unitaries",
+    "section hypotheses standing for real analysis: ring laws of the scalars; cos^2+sin^2=1, |exp(i phi)|=1, tan(theta)=|r|, "
+    "exp(i angle r)=r/|r|, the half-angle relation of exp(i 2 arctan t)",
+    "harness tools/props/c17.py: generators, independent element matrices used to multiply the factors back, tolerances "
+    "(1e-8 reconstruction/structure, 2e-7 for Bloch-Messiah whose values are rounded to 9 decimals, 1e-4 on the mean photon number "
+    "because the scaling root comes from thewalrus.adj_scaling)",
+    "numpy/scipy/LAPACK and thewalrus are libraries: takagi, williamson, bloch_messiah, *_compact, sun_compact and the graph "
+    "embeddings are validated per output, not modelled",
+]
+ASSUMPTIONS = [
+    "williamson's convention is V = S Db S^T (as used by its callers and tests); its docstring says S^T Db S",
+    "an invalid input that is accepted counts as a violation only if the returned factors are then wrong",
+    "inputs on the boundary of a routine's own tolerance may be accepted or rejected",
+]
+MANIFEST_TEXT = ("proof (partial): for every size n, ring of scalars and parameter list, Coq proves that the nulling order of "
+                 "rectangular/rectangular_MZ/triangular zeroes the strict lower triangle given blocks that null their targets, that every "
+                 "branch of nullTi/nullT/nullMZi/nullMZ yields such a block, that T/Ti/Mach-Zehnder blocks are unitary and applying the "
+                 "inverse blocks in reverse restores the input, and that rectangular_phase_end/rectangular_symmetric preserve the product "
+                 "(C17_*_partial, C17_phase_end, C17_symmetric_phase_end; closed under the global context). Not proved: diagonal "
+                 "remainder/unit modulus (C17_full_statement), float error, and all LAPACK-based routines (takagi, williamson, "
+                 "bloch_messiah, compact meshes, sun_compact, graph embeddings), which are checked per output by a randomized search over "
+                 "degenerate / exact-zero / permutation-like / boundary / invalid inputs.")
 
 TWO_PI = 2 * math.pi
 
@@ -389,7 +414,7 @@ def check_valid(routine, A, opts, res):
             raise Bad("not-proportional", "U tanh(r) U^T is not a positive multiple of A (k=%.6g, err %.3g)" % (k, np.abs(B - k * At).max()))
         nbar = np.sum(np.sinh(vals) ** 2) / N
         want = opts.get("mean_photon_per_mode", 1.0)
-        if abs(nbar - want) > 1e-6 * max(1, want):
+        if abs(nbar - want) > 1e-4 * max(1, want):   # the scaling root is found by thewalrus.adj_scaling (library tolerance)
             raise Bad("mean-photon", "mean photon number per mode %.9g, requested %.9g" % (nbar, want))
         return
     if routine == "bipartite_graph_embed":
@@ -408,7 +433,7 @@ def check_valid(routine, A, opts, res):
             raise Bad("not-proportional", "U tanh(r) V^T is not a positive multiple of A (k=%.6g, err %.3g)" % (k, np.abs(B - k * A).max()))
         nbar = np.sum(np.sinh(vals) ** 2) / N
         want = opts.get("mean_photon_per_mode", 1.0)
-        if abs(nbar - want) > 1e-6 * max(1, want):
+        if abs(nbar - want) > 1e-4 * max(1, want):   # the scaling root is found by thewalrus.adj_scaling (library tolerance)
             raise Bad("mean-photon", "mean photon number per mode %.9g, requested %.9g" % (nbar, want))
         return
     if routine == "williamson":
@@ -457,6 +482,29 @@ def check_valid(routine, A, opts, res):
     raise KeyError(routine)
 
 
+def sun_tail_norm(U):
+    """Smallest tail norm sqrt(sum_{k>=i} |u_k|^2), 1 <= i <= m-2, of the first column of U and of the successive
+    (m-1)-dimensional blocks left after rotating that column onto e_0 (computed here with stable Givens rotations).
+    sun_compact's staircase divides by exactly this quantity; 0 means a 0/0."""
+    V = np.array(U, dtype=complex)
+    k = 1.0
+    while V.shape[0] > 3:
+        m = V.shape[0]
+        u = V[:, 0]
+        if not np.isclose(np.abs(u).max(), 1, rtol=0, atol=1e-12):   # single non-zero entry: handled by a separate branch
+            tails = np.sqrt(np.cumsum((np.abs(u) ** 2)[::-1])[::-1])
+            k = min(k, float(tails[1:m - 1].min()))
+        for i in range(m - 1, 0, -1):
+            a, b = V[i - 1, 0], V[i, 0]
+            r = math.hypot(abs(a), abs(b))
+            if abs(b) < 1e-12:      # nothing to rotate away (the code's special-case branches ignore such noise too)
+                continue
+            G = np.array([[np.conj(a), np.conj(b)], [-b, a]]) / r
+            V[i - 1:i + 1, :] = G @ V[i - 1:i + 1, :]
+        V = V[1:, 1:]
+    return k
+
+
 def _rounding_split(vals, decimals, rounded=False):
     """True iff two of the values are equal to working precision but np.round(., decimals) separates them.
     rounded=True: the values are already rounded; look for two on adjacent grid points instead."""
@@ -478,10 +526,16 @@ def input_class(routine, A, kind, res=None):
     if routine == "sun_compact" and kind not in UNITARY_BAD and kind != "too-small" and square:
         if np.isrealobj(A) and np.linalg.det(A) < 0:
             return "real-negative-det"
-        if A.shape[0] >= 8:
-            return "size-ge-8"
-        if (A == 0).any():
-            return "exact-zeros"
+        if A.shape[0] >= 4:
+            tn = sun_tail_norm(A)
+            if tn < 1e-9:
+                return "zero-tail-column"
+            if tn < 3e-3:
+                return "small-tail-column"
+        if A.shape[0] >= 7:
+            return "size-ge-7"
+        if not (A == 0).any():
+            return "dense-numerical"
     if routine in SYMM_ROUTINES and square and res is not None:
         # singular values returned by takagi's complex branch are rounded to 13 decimals and were grouped by that rounding
         try:
@@ -1217,6 +1271,7 @@ def search(ctx):
         if fail:
             _report(ctx, case, fail)
     n_cases = ctx.budget(2600, 40000)
+    sun_dense = [0, 0, None]
     for i in range(n_cases):
         routine = ALL_ROUTINES[i % len(ALL_ROUTINES)]
         big = rng.random() < 0.04
@@ -1225,8 +1280,18 @@ def search(ctx):
         small = {"routine": routine, "kind": case["kind"], "n": case["n"], "opts": case["opts"], "outcome": out,
                  "h": hash(tuple(str(v) for v in case["matrix"]["re"])) & 0xffffffff}
         ctx.case(small, nontrivial=is_nontrivial(case["kind"]), bucket="%s/%s" % (routine, out.split(":")[0]))
+        if routine == "sun_compact" and case["kind"] in ("haar", "special", "dft", "boundary-in") and case["n"] <= 6:
+            sun_dense[0] += 1
+            if fail:
+                sun_dense[1] += 1
+                sun_dense[2] = sun_dense[2] or (case, fail)
         if fail:
             _report(ctx, case, fail)
+    # sporadic numerical failures of sun_compact on dense matrices are a recorded finding (rate < 1e-3 for n <= 6);
+    # anything systematic is not
+    if sun_dense[0] >= 20 and sun_dense[1] > max(2, 0.03 * sun_dense[0]):
+        case, fail = sun_dense[2]
+        ctx.counterexample("sun_compact:systematic-failure:dense-small", "sun_compact fails on %d of %d dense unitaries of size <= 6 (%s)" % (sun_dense[1], sun_dense[0], fail[1]), case)
     # metamorphic: a decomposition must not modify its argument
     for routine in ALL_ROUTINES:
         case = gen_case(rng, routine=routine, bad_fraction=0.0, max_n=5)
